@@ -194,3 +194,10 @@ Theorem sqlite_behaves_like_a_map_partial :
   forall d0 ops, ops_ok (sql_valid d0) ops -> Forall no_bulk_load ops ->
     model_outs BMbtiles ops = spec_outs ops /\ model_outs BGpkg ops = spec_outs ops.
 Proof. exact sql_refines_partial. Qed.
+
+(* PARTIAL, same statement for the per-level variants (MBTilesLevelCache, GeopackageLevelCache: one database
+   file per level): equal x/y at different levels, level 0 included; bulk loads excluded as above. *)
+Theorem sqlite_per_level_behaves_like_a_map_partial :
+  forall d0 ops, ops_ok (sql_valid d0) ops -> Forall no_bulk_load ops ->
+    model_outs BSqlite ops = spec_outs ops /\ model_outs BGpkgLevel ops = spec_outs ops.
+Proof. exact level_sql_refines_partial. Qed.
